@@ -334,9 +334,9 @@ func accessPathD(v ssa.Value, depth int) string {
 	case nil:
 		return "<nil>"
 	case *ssa.Parameter:
-		return x.Name()
+		return paramName(x)
 	case *ssa.FreeVar:
-		return "^" + x.Name()
+		return freeVarName(x)
 	case *ssa.Global:
 		return relPkg(x.Pkg.Pkg.Path()) + "." + x.Name()
 	case *ssa.Const:
@@ -826,4 +826,81 @@ func resolve(v ssa.Value) ssa.Value {
 		v = sv
 	}
 	return v
+}
+
+// ---------------------------------------------------------------------------------------------
+// canonical names of parameters: rules must not depend on how a parameter or receiver is spelled, so a
+// parameter renders as {TypeName} (pointer stripped; basic types by their name; interface{} as any), with
+// #k appended when several parameters of the function render alike. Captured variables render as ^{TypeName}.
+
+func typeBaseName(t types.Type) string {
+	for {
+		p, ok := t.(*types.Pointer)
+		if !ok {
+			break
+		}
+		t = p.Elem()
+	}
+	switch x := t.(type) {
+	case *types.Named:
+		return x.Obj().Name()
+	case *types.Basic:
+		return x.Name()
+	case *types.Slice:
+		return "[]" + typeBaseName(x.Elem())
+	case *types.Map:
+		return "map"
+	case *types.Signature:
+		return "func"
+	case *types.Interface:
+		if x.NumMethods() == 0 {
+			return "any"
+		}
+		return "iface"
+	case *types.Array:
+		return "[n]" + typeBaseName(x.Elem())
+	}
+	return "T"
+}
+
+func paramName(p *ssa.Parameter) string {
+	f := p.Parent()
+	base := typeBaseName(p.Type())
+	if f == nil {
+		return "{" + base + "}"
+	}
+	n, idx := 0, 0
+	for _, q := range f.Params {
+		if typeBaseName(q.Type()) == base {
+			if q == p {
+				idx = n
+			}
+			n++
+		}
+	}
+	if n > 1 {
+		return fmt.Sprintf("{%s#%d}", base, idx)
+	}
+	return "{" + base + "}"
+}
+
+func freeVarName(v *ssa.FreeVar) string {
+	f := v.Parent()
+	base := typeBaseName(v.Type())
+	if f == nil {
+		return "^{" + base + "}"
+	}
+	n, idx := 0, 0
+	for _, q := range f.FreeVars {
+		if typeBaseName(q.Type()) == base {
+			if q == v {
+				idx = n
+			}
+			n++
+		}
+	}
+	if n > 1 {
+		return fmt.Sprintf("^{%s#%d}", base, idx)
+	}
+	return "^{" + base + "}"
 }
